@@ -70,7 +70,10 @@ fn main() {
     ctx.scratch = scratch;
     match workload.as_str() {
         "C01" => p_score::run_c01(&mut ctx, from, to, tiny),
-        "C06" => p_score::run_c06(&mut ctx, from, to, tiny),
+        "C06" => {
+            p_score::ALLOW_BIG_TAGSET.store(true, std::sync::atomic::Ordering::Relaxed);
+            p_score::run_c06(&mut ctx, from, to, tiny)
+        }
         "C14" => {
             p_score::ALLOW_BIG_PREDICTOR.store(true, std::sync::atomic::Ordering::Relaxed);
             p_score::run_c14(&mut ctx, from, to, tiny)
@@ -101,6 +104,8 @@ fn main() {
         "C11cli" => p_cli::run_c11cli(&mut ctx, from, to),
         #[cfg(feature = "cli")]
         "C17cli" => p_cli::run_c17cli(&mut ctx, from, to),
+        #[cfg(feature = "cli")]
+        "C07cli" => p_cli::run_c07cli(&mut ctx, from, to),
         "C08t" => p_threads::run_c08t(&mut ctx, from, to, tiny, threads),
         "C18u" => p_unsafe::run_c18u(&mut ctx, from, to, tiny),
         "C02x" => p_sentence::run_c02x(&mut ctx, from, to),
